@@ -34,4 +34,34 @@ def nodupB (t : Node) : Bool := decide (treeBlocks t).Nodup
 
 def treeInvB (bs : Nat) (t : Node) : Bool := goodRootB bs t && sortedB t && nodupB t
 
+/-! ### the allocator the correspondence runs the tree mirror with -/
+
+/-- the block bitmaps (one list of bits per group, true = in use) and the superblock's free-block counter -/
+structure BmState where
+  groups : List Alloc.Bits
+  sbfree : Nat
+
+/-- every group has at most `bpg` bits, so that a bit names one block -/
+def bmWF (bpg : Nat) (s : BmState) : Bool := decide (0 < bpg) && s.groups.all (fun b => decide (b.length ≤ bpg))
+
+/-- allocateExtents(n blocks, nil) as the tree code meets it: refused when the superblock counts fewer than n free
+    blocks, else the fast path over the block bitmaps (first run of at least n clear bits in the lowest group), the
+    run marked and the counter lowered. Block number = firstDataBlock + group * blocksPerGroup + bit. -/
+def bmAlloc (fdb bpg : Nat) : Allocator BmState where
+  take s n :=
+    if n = 0 ∨ !bmWF bpg s then none else
+    if s.sbfree < n then none else
+    match Alloc.fastPick s.groups n with
+    | none => none
+    | some (g, p) =>
+      some (fdb + g * bpg + p,
+        { groups := (s.groups.zipIdx).map (fun x => if x.2 = g then Alloc.setRun x.1 p n else x.1), sbfree := s.sbfree - n })
+
+/-- block x is free: it lies in a group and its bit is clear -/
+def bmFree (fdb bpg : Nat) (s : BmState) (x : Nat) : Bool :=
+  decide (fdb ≤ x) &&
+    (match s.groups[(x - fdb) / bpg]? with
+      | some b => b[(x - fdb) % bpg]? == some false
+      | none => false)
+
 end Diskfs.Ext4.ExtTree
